@@ -350,3 +350,159 @@ func (x *runner) variantCases(ca *authority) {
 		}
 	}
 }
+
+// fuzzCases stresses the three places where the model mirrors library behaviour it cannot see the source of through the
+// extractor: Go's time.Parse/Format inside asn1 (validity), base-128 arcs (signature algorithm OID) and raw tag/length
+// headers (issuer). Each case is one canonical-domain line plus one BuildPrecertTBS line.
+func (x *runner) fuzzCases(ca *authority, n int) {
+	r := x.r
+	tm := rndTemplate(r, rndSerial(r))
+	der, err := stdx509.CreateCertificate(rand.Reader, tm, ca.tmpl, x.k.leafs[r.Intn(len(x.k.leafs))].Public(), ca.sgn.key)
+	if err != nil {
+		return
+	}
+	sc, _ := stdx509.ParseCertificate(der)
+	base, ok := splitTBS(sc.RawTBSCertificate)
+	if !ok {
+		return
+	}
+	p := base.insertExt(r.Intn(len(base.exts)+1), mkExt(oidPoison, true, []byte{5, 0}))
+	two := func(v int) string { return fmt.Sprintf("%02d", v) }
+	pick := func(okMax, lo, hi int) int { // mostly within 0..okMax, now and then in lo..hi
+		if r.Intn(14) == 0 {
+			return lo + r.Intn(hi-lo+1)
+		}
+		return r.Intn(okMax + 1)
+	}
+	rndTime := func() []byte {
+		gen := r.Bool()
+		var sb []byte
+		if gen {
+			y := []int{0, 1, 1899, 1949, 1950, 2049, 2050, 2051, 2100, 2400, 9999, 2050 + r.Intn(7000), 2052, 2096, 1000 + r.Intn(9000)}[r.Intn(15)]
+			sb = append(sb, fmt.Sprintf("%04d", y)...)
+		} else {
+			sb = append(sb, two(r.Intn(100))...)
+		}
+		mo := 1 + pick(11, 0, 13) - func() int { if r.Intn(9) == 0 { return 1 }; return 0 }()
+		if mo < 0 {
+			mo = 0
+		}
+		d := []int{1, 28, 29, 30, 31, 1 + r.Intn(28), 1 + r.Intn(28), 1 + r.Intn(28), 1 + r.Intn(28), 1 + r.Intn(28), 0, 32}[r.Intn(12)]
+		if r.Intn(4) == 0 {
+			mo = 2
+		}
+		sb = append(sb, two(mo)...)
+		sb = append(sb, two(d)...)
+		sb = append(sb, two(pick(23, 24, 25))...)
+		sb = append(sb, two(pick(59, 60, 61))...)
+		if r.Intn(12) != 0 {
+			sb = append(sb, two(pick(59, 60, 61))...)
+		}
+		switch r.Intn(16) {
+		case 0, 1, 2, 3, 4, 10, 11, 12, 13, 14, 15:
+			sb = append(sb, 'Z')
+		case 5, 6, 7:
+			sb = append(sb, "+-"[r.Intn(2)])
+			sb = append(sb, two(pick(23, 24, 26))...)
+			sb = append(sb, two(pick(59, 60, 61))...)
+		case 8:
+			sb = append(sb, []string{"", "z", "+0000", "-0000", "Z0", "+01", "+01:00", ".5Z", ",5Z", " Z"}[r.Intn(10)]...)
+		default:
+			sb = append(sb, 'Z')
+			if len(sb) > 3 {
+				sb[r.Intn(len(sb))] = byte(0x2f + r.Intn(13)) // one character around the digits
+			}
+		}
+		tag := byte(0x17)
+		if gen != (r.Intn(10) == 0) {
+			tag = 0x18
+		}
+		return mk(tag, sb)
+	}
+	rndArcs := func() []byte {
+		var o []byte
+		for i, k := 0, 1+r.Intn(5); i < k; i++ {
+			switch r.Intn(8) {
+			case 0:
+				o = append(o, 0x80) // padding byte in front of the arc
+				fallthrough
+			case 1, 2, 3:
+				o = append(o, byte(r.Intn(128)))
+			case 4:
+				o = append(o, 0x80|byte(1+r.Intn(127)), byte(r.Intn(128)))
+			case 5:
+				o = append(o, 0x80|byte(r.Intn(16)), 0x80|byte(r.Intn(128)), 0x80|byte(r.Intn(128)), 0x80|byte(r.Intn(128)), byte(r.Intn(128)))
+			case 6:
+				o = append(o, 0x81, 0x80, 0x80, 0x80, 0x80, 0x00)
+			default:
+				o = append(o, 0x80|byte(r.Intn(128))) // possibly left unterminated
+			}
+		}
+		return o
+	}
+	rndHeader := func() []byte {
+		var b []byte
+		first := byte(r.Intn(256))
+		b = append(b, first)
+		if first&0x1f == 0x1f {
+			b = append(b, rndArcs()...)
+			if r.Intn(3) == 0 {
+				b = append(b[:1], []byte{0x1f, 0x1e, 0x80, 0x7f, 0x81}[r.Intn(5)])
+				if b[1]&0x80 != 0 {
+					b = append(b, byte(r.Intn(128)))
+				}
+			}
+		}
+		n := []int{0, 1, 5, 127, 128, 129, 255, 256, 300}[r.Intn(9)]
+		switch r.Intn(6) {
+		case 0:
+			b = append(b, 0x81, byte(n)) // long form even when short would do
+		case 1:
+			b = append(b, 0x82, byte(n>>8), byte(n))
+		case 2:
+			b = append(b, 0x80)
+		default:
+			b = append(b, derLen(n)...)
+		}
+		if r.Intn(8) == 0 {
+			n += r.Intn(3) - 1
+			if n < 0 {
+				n = 0
+			}
+		}
+		return append(b, r.Bytes(n)...)
+	}
+	sig := p.field(fSigAlg)
+	_, sv, _, _, _ := readTLV(sig)
+	sfs, _ := splitAll(sv)
+	for i := 0; i < n; i++ {
+		q := p.clone()
+		kind := ""
+		switch i % 3 {
+		case 0:
+			a, b := rndTime(), rndTime()
+			if r.Intn(3) == 0 {
+				a = utc("300101000000Z")
+			}
+			q.setField(fValidity, mk(0x30, a, b))
+			kind = "time"
+		case 1:
+			q.setField(fSigAlg, mk(0x30, append([][]byte{mk(0x06, rndArcs())}, sfs[1:]...)...))
+			kind = "oid"
+		default:
+			q.setField([]int{fIssuer, fSubject}[r.Intn(2)], rndHeader())
+			kind = "header"
+		}
+		v := q.assemble()
+		c := x.opCanon(v)
+		x.out.Count(fmt.Sprintf("class:fuzz-%s-canon=%v", kind, c))
+		o, err := x.opBuild(v, nil, c)
+		if c && err == nil {
+			if _, splits := splitTBS(v); splits {
+				if d := removalDiff(v, o, oidPoison); d != "" {
+					x.out.Fail("fuzz "+kind+" "+h(v), "canonical input, but the removal changed something else: "+d)
+				}
+			}
+		}
+	}
+}
